@@ -5941,6 +5941,11 @@ class PyCdlib:
         # UDF and Joliet destinations up front, so that a name or a parent that
         # is refused there is reported while nothing has been added yet.
         symlink_bytearray = b''
+        rr_symlink_name_bytes = b''
+        if rr_symlink_name is not None:
+            # The Rock Ridge name of the symlink has to obey the same rules as
+            # the Rock Ridge name of any other entry.
+            rr_symlink_name_bytes = self._check_rr_name(rr_symlink_name)
         if udf_symlink_path is not None and udf_target is not None:
             self._check_udf_destination(utils.normpath(udf_symlink_path), False)
 
@@ -5967,7 +5972,6 @@ class PyCdlib:
                 # We specifically do *not* normalize rr_path here, since that
                 # potentially changes the meaning of what the user wanted.
 
-                rr_symlink_name_bytes = rr_symlink_name.encode('utf-8')
                 rec.new_symlink(self.pvd, name, parent, rr_path.encode('utf-8'),
                                 self.pvd.sequence_number(), self.rock_ridge,
                                 rr_symlink_name_bytes, self.xa, time.time())
